@@ -41,6 +41,13 @@ def gen_knobs(r, driver, allow_batch=False):
                                  else ["whole", "bytes", "random"])
         if driver == "luba":
             k["accept_msg"] = r.random() < 0.5
+    if driver in ("tridonic", "hasseb") and r.random() < 0.3:
+        # the host does not get round to reading for a while: reports pile up and
+        # are then read back to back (one per loop iteration)
+        k["stalls"] = sorted([r.choice([0, 5000, 20000, 60000, 150000, r.randrange(0, 500000)]),
+                              r.choice([2000, 10000, 30000, 60000])] for _ in range(r.randrange(1, 3)))
+    # which interpreter's asyncio.wait_for the driver sees (sim/legacy_asyncio.py)
+    k["wait_for"] = "py38-311" if r.random() < 0.25 else "native"
     return k
 
 
@@ -115,7 +122,11 @@ def gen_seq_op(r, driver, cats=None, p_error=0.15, allow_raise=True,
         # a sequence that yields a clean-up command from its finally clause:
         # close() on it raises RuntimeError('generator ignored GeneratorExit')
         op["bad_close"] = True
-    if allow_raise and x < 0.2:
+    nprog = sum(1 for it in items if it[0] == "progress")
+    if allow_raise and nprog and r.random() < 0.3:
+        # the caller's progress callback raises at its k-th invocation
+        op["progress_raise_at"] = r.randrange(nprog)
+    elif allow_raise and x < 0.2:
         op["raise_at"] = r.randrange(0, len(items) + 1)
     elif allow_cancel and x < 0.4:
         op["cancel_after_us"] = r.choice([0, 1, 500, 5000, 20000, 40000, 90000,
@@ -181,8 +192,13 @@ def shrink(plan):
                         ra = p["callers"][i]["ops"][j].get("raise_at")
                         if ra is not None and ra > k:
                             p["callers"][i]["ops"][j]["raise_at"] = ra - 1
+                        pra = p["callers"][i]["ops"][j].get("progress_raise_at")
+                        if pra is not None and lk == "items":
+                            np_ = sum(1 for it in p["callers"][i]["ops"][j]["items"] if it[0] == "progress")
+                            if pra >= np_:
+                                continue
                         yield p
-            for fld in ("raise_at", "cancel_after_us", "timeout_us", "bad_close"):
+            for fld in ("raise_at", "cancel_after_us", "timeout_us", "bad_close", "progress_raise_at", "exceptions"):
                 if op.get(fld) is not None:
                     p = copy.deepcopy(plan)
                     del p["callers"][i]["ops"][j][fld]
@@ -203,7 +219,7 @@ def shrink(plan):
     kn = plan["knobs"]
     for k, simple in (("latency", "nominal"), ("quirk", False), ("idle_spam", False),
                       ("accept_msg", False), ("chunking", "whole"),
-                      ("answer_mode", "intime"), ("init_seq", 1)):
+                      ("answer_mode", "intime"), ("init_seq", 1), ("wait_for", "native"), ("stalls", [])):
         if k in kn and kn[k] != simple:
             p = copy.deepcopy(plan)
             p["knobs"][k] = simple
